@@ -288,6 +288,42 @@ def L4(ctx: Ctx) -> RuleResult:
     return r
 
 
+def L5(ctx: Ctx) -> RuleResult:
+    r = RuleResult('L5', 'tables keyed by DataType members that are subscripted (table[member], no default) have an entry for each of the seven base types: naming / describing a type set never raises KeyError')
+    import ast as _ast
+    dt = ctx.model.cls('DataType', 'L5')
+    bases = [n for n in dt.enum_members if flagset(ctx, EnumMember('DataType', n)) == frozenset({n})]
+    n = 0
+    for mod in ctx.model.modules.values():
+        for name in list(mod.assigns):
+            t = ctx.ev.global_term(mod, name)
+            t = getattr(t, 'value', t) if type(t).__name__ == 'GlobalVal' else t
+            if type(t).__name__ != 'DictT' or not t.items:
+                continue
+            keysets = [flagset(ctx, k) for k, _ in t.items]
+            if not all(ks is not None and len(ks) == 1 for ks in keysets):
+                continue   # not a table keyed by base types
+            # is it subscripted somewhere (table[x]) rather than read with .get(x, default)?
+            subscripted = [node for m2 in ctx.model.modules.values() for node in _ast.walk(m2.tree)
+                           if isinstance(node, _ast.Subscript) and isinstance(node.value, _ast.Name) and node.value.id == name and isinstance(node.ctx, _ast.Load)
+                           and (m2 is mod or m2.imports.get(name, (None, None))[0] == mod.name)]
+            if not subscripted:
+                continue
+            n += 1
+            have = set().union(*keysets)
+            missing = [b for b in bases if b not in have]
+            if missing:
+                r.fail(f'{mod.name}.{name}', f'{name}[...] is looked up without a default but has no entry for {missing}: a type set containing {missing[0]} raises KeyError instead of being named', f'{mod.relpath}:{subscripted[0].lineno}', bases, sorted(have))
+            else:
+                r.ok(f'{mod.name}.{name}: all {len(bases)} base types have an entry')
+    r.counts['subscripted tables keyed by base types'] = n
+    if len(bases) != 7:
+        raise AnalysisError('L5', f'expected seven base types, found {bases}')
+    if not r.findings:
+        r.ok('no partial table over the base types is subscripted')
+    return r
+
+
 def _initial_value(ctx: Ctx, fi, name: str) -> Optional[Term]:
     import ast
     from .terms import _State
@@ -302,4 +338,4 @@ def _initial_value(ctx: Ctx, fi, name: str) -> Optional[Term]:
     return val
 
 
-RULES = {'L1': L1, 'L2': L2, 'L3': L3, 'L4': L4}
+RULES = {'L1': L1, 'L2': L2, 'L3': L3, 'L4': L4, 'L5': L5}
